@@ -577,43 +577,46 @@ fn xz_grammar(seed: u64, good_crc: bool) -> Vec<u8> {
     f
 }
 
+/// reads after an error / after the end of the stream must still return: a handful of them, with different
+/// buffer sizes (a stored error may be handed out only once and the state behind it be unusable)
+fn poke<R: Read>(r: &mut R) {
+    let mut b = [0u8; 16];
+    for n in [16usize, 1, 0, 16, 7] {
+        let _ = r.read(&mut b[..n]);
+    }
+}
+
 /// drives the decoder over the input; every call must return
 fn drive(dec: &Dec, input: Vec<u8>, sizes: &[u32], cap: usize) -> io::Result<Vec<u8>> {
     match dec {
         Dec::LzmaHeader { limit_kb } => {
             let mut r = LZMAReader::new_mem_limit(input.as_slice(), *limit_kb, None)?;
             let res = read_all(&mut r, sizes, cap);
-            let mut b = [0u8; 16];
-            let _ = r.read(&mut b);
+            poke(&mut r);
             res
         }
         Dec::LzmaRaw { props, dict, size } => {
             let mut r = LZMAReader::new_with_props(input.as_slice(), *size, *props, *dict, None)?;
             let res = read_all(&mut r, sizes, cap);
-            let mut b = [0u8; 16];
-            let _ = r.read(&mut b);
+            poke(&mut r);
             res
         }
         Dec::Lzma2 { dict } => {
             let mut r = LZMA2Reader::new(input.as_slice(), *dict, None);
             let res = read_all(&mut r, sizes, cap);
-            // reads after an error / after the end must still return
-            let mut b = [0u8; 16];
-            let _ = r.read(&mut b);
+            poke(&mut r);
             res
         }
         Dec::Xz { multi } => {
             let mut r = XZReader::new(input.as_slice(), *multi);
             let res = read_all(&mut r, sizes, cap);
-            let mut b = [0u8; 16];
-            let _ = r.read(&mut b);
+            poke(&mut r);
             res
         }
         Dec::Lzip => {
             let mut r = LZIPReader::new(input.as_slice())?;
             let res = read_all(&mut r, sizes, cap);
-            let mut b = [0u8; 16];
-            let _ = r.read(&mut b);
+            poke(&mut r);
             res
         }
         Dec::Bcj { arch, start } => {
@@ -622,22 +625,22 @@ fn drive(dec: &Dec, input: Vec<u8>, sizes: &[u32], cap: usize) -> io::Result<Vec
         }
         Dec::Delta { dist } => {
             let mut r = DeltaReader::new(input.as_slice(), *dist as usize);
-            read_all(&mut r, sizes, cap)
+            let res = read_all(&mut r, sizes, cap);
+            poke(&mut r);
+            res
         }
         #[cfg(not(lzma_rust2_verif_shuttle))]
         Dec::LzipMt { workers } => {
             let mut r = lzma_rust2::LZIPReaderMT::new(std::io::Cursor::new(input), *workers)?;
             let res = read_all(&mut r, sizes, cap);
-            let mut b = [0u8; 16];
-            let _ = r.read(&mut b);
+            poke(&mut r);
             res
         }
         #[cfg(not(lzma_rust2_verif_shuttle))]
         Dec::Lzma2Mt { dict, workers } => {
             let mut r = lzma_rust2::LZMA2ReaderMT::new(std::io::Cursor::new(input), *dict, None, *workers);
             let res = read_all(&mut r, sizes, cap);
-            let mut b = [0u8; 16];
-            let _ = r.read(&mut b);
+            poke(&mut r);
             res
         }
         #[cfg(lzma_rust2_verif_shuttle)]
@@ -657,7 +660,9 @@ fn drive(dec: &Dec, input: Vec<u8>, sizes: &[u32], cap: usize) -> io::Result<Vec
                 p = e;
             }
             let mut r = BCJ2Reader::new(streams, *size);
-            read_all(&mut r, sizes, cap)
+            let res = read_all(&mut r, sizes, cap);
+            poke(&mut r);
+            res
         }
     }
 }
